@@ -295,3 +295,53 @@ Fixpoint sys_run (l : limiter) (s : sys) (os : list sop) : sys * list sobs :=
   | o :: os' => let '(s1, b) := sys_step l s o in
                 let '(s2, bs) := sys_run l s1 os' in (s2, b :: bs)
   end.
+
+(* ---- fine grain: a check takes time ------------------------------------------------------------
+   CheckMemLimits is not atomic with respect to Start/Shutdown/MustRefuse: the monitoring
+   goroutine takes a tick (FBegin: it is now inside CheckMemLimits, reading memory / forcing a
+   GC) and later stores the result (FEnd).  [f_fly] = the environment of the check in progress.
+   There is one goroutine, so at most one check is in flight.  The LAST Shutdown stops the
+   ticker, closes [closed] and then waits for the goroutine (waitGroup.Wait) while holding
+   refCounterLock: a check in flight completes — its result is stored — BEFORE Shutdown
+   returns, and nothing runs afterwards.  A non-last Shutdown and Start do not wait. *)
+Record fsys := mkF { f_life : life; f_st : st; f_fly : option tick }.
+Definition fsys0 (t0 : Z) : fsys := mkF life0 (st0 t0) None.
+
+Inductive fop := FStart | FShutdown | FBegin (t : tick) | FEnd | FQuery.
+
+Inductive fobs :=
+| FLifeRes (err : bool) (completed : option bool)  (* completed: mode stored by the check the last Shutdown waited for *)
+| FBegun | FNotBegun
+| FEnded (must_refuse : bool) | FNoEnd
+| FQueried (must_refuse : bool).
+
+Definition fstep (l : limiter) (s : fsys) (o : fop) : fsys * fobs :=
+  match o with
+  | FStart => let '(lf, e) := life_step (f_life s) LStart in (mkF lf (f_st s) (f_fly s), FLifeRes e None)
+  | FShutdown =>
+      let '(lf, e) := life_step (f_life s) LShutdown in
+      if refcnt (f_life s) =? 1 then
+        match f_fly s with
+        | Some t => let s1 := fst (check l (f_st s) t) in (mkF lf s1 None, FLifeRes e (Some (refuse s1)))
+        | None => (mkF lf (f_st s) None, FLifeRes e None)
+        end
+      else (mkF lf (f_st s) (f_fly s), FLifeRes e None)
+  | FBegin t =>
+      match f_fly s with
+      | None => if checking (f_life s) then (mkF (f_life s) (f_st s) (Some t), FBegun) else (s, FNotBegun)
+      | Some _ => (s, FNotBegun)
+      end
+  | FEnd =>
+      match f_fly s with
+      | Some t => let s1 := fst (check l (f_st s) t) in (mkF (f_life s) s1 None, FEnded (refuse s1))
+      | None => (s, FNoEnd)
+      end
+  | FQuery => (s, FQueried (refuse (f_st s)))
+  end.
+
+Fixpoint frun (l : limiter) (s : fsys) (os : list fop) : fsys * list fobs :=
+  match os with
+  | [] => (s, [])
+  | o :: os' => let '(s1, b) := fstep l s o in
+                let '(s2, bs) := frun l s1 os' in (s2, b :: bs)
+  end.
